@@ -17,3 +17,4 @@ for D in "$@"; do
     *) git -C /repo checkout -- .; echo "$D: unclear test result: $T";;
   esac
 done
+python3 /verif/tools/mkanchors.py
